@@ -392,22 +392,30 @@ Example konst_id_examples :
 Proof. intros. repeat split; reflexivity. Qed.
 
 (* ================= 12. non-vacuity ================= *)
-Example ex_add_wraps :
-  arith primfo OAdd (VInt KI64 (2 ^ 63 - 1)) (VInt KI64 1) = Ok (VInt KI64 (- 2 ^ 63)).
+(* stated for every float_ops record (integers never touch it), hence in particular for the
+   IEEE binary64 instance [primfo]; the instances are below *)
+Example ex_add_wraps : forall fo,
+  arith fo OAdd (VInt KI64 (2 ^ 63 - 1)) (VInt KI64 1) = Ok (VInt KI64 (- 2 ^ 63)).
 Proof. reflexivity. Qed.
 
-Example ex_compare_exact_above_2_53 :
-  compare primfo CEq (VInt KI64 (2 ^ 53 + 1)) (VInt KI64 (2 ^ 53)) = Some false.
+Example ex_compare_exact_above_2_53 : forall fo,
+  compare fo CEq (VInt KI64 (2 ^ 53 + 1)) (VInt KI64 (2 ^ 53)) = Some false.
 Proof. reflexivity. Qed.
 
-Example ex_div_truncates :
+Example ex_div_truncates : forall fo,
+  arith fo ODiv (VInt KI64 (-7)) (VInt KI64 2) = Ok (VInt KI64 (-3)).
+Proof. reflexivity. Qed.
+
+Example ex_mixed_compare : forall fo,
+  compare fo CLt (VInt KI64 (-1)) (VUint KU64 (2 ^ 64 - 1)) = Some true.
+Proof. reflexivity. Qed.
+
+Example ex_uint_wraps : forall fo,
+  arith fo OSub (VUint KU64 0) (VUint KU64 1) = Ok (VUint KU64 (2 ^ 64 - 1)).
+Proof. reflexivity. Qed.
+
+Example ex_primfo :
+  arith primfo OAdd (VInt KI64 (2 ^ 63 - 1)) (VInt KI64 1) = Ok (VInt KI64 (- 2 ^ 63)) /\
+  compare primfo CEq (VInt KI64 (2 ^ 53 + 1)) (VInt KI64 (2 ^ 53)) = Some false /\
   arith primfo ODiv (VInt KI64 (-7)) (VInt KI64 2) = Ok (VInt KI64 (-3)).
-Proof. reflexivity. Qed.
-
-Example ex_mixed_compare :
-  compare primfo CLt (VInt KI64 (-1)) (VUint KU64 (2 ^ 64 - 1)) = Some true.
-Proof. reflexivity. Qed.
-
-Example ex_uint_wraps :
-  arith primfo OSub (VUint KU64 0) (VUint KU64 1) = Ok (VUint KU64 (2 ^ 64 - 1)).
-Proof. reflexivity. Qed.
+Proof. repeat split. Qed.
